@@ -209,6 +209,12 @@ func ScanBatch(t Tmpl) *BatchLine {
 				name := text[i+1 : i+1+j]
 				if !strings.ContainsAny(name, " \"=") {
 					out.Delayed = append(out.Delayed, name)
+					// positional parameters inside the delayed name (!%1_len!)
+					for k := 0; k+1 < len(name); k++ {
+						if name[k] == '%' && name[k+1] >= '0' && name[k+1] <= '9' {
+							out.Percent = append(out.Percent, string(name[k+1]))
+						}
+					}
 					i += j + 1
 				}
 			}
